@@ -834,7 +834,7 @@ int main(int argc, char** argv) {
     int maxdrivers = (int)a.num("drivers", 3);
     bool hot = a.num("hot", 1) != 0;
     int fixed_conc = (int)a.num("conc", 0);
-    std::vector<int> ids = { 200, 201, 202, 10, 2, 3, 5, 40 };      // split/spawn, stolen-task depth, demand split, steal, owner/thief arbitration
+    std::vector<int> ids = { 200, 201, 202, 209, 10, 2, 3, 5, 40 };      // split/spawn, stolen-task depth, demand split, steal, owner/thief arbitration
     Rng top(mix(R.seed, 0xC05));
     tbb::global_control gc(tbb::global_control::max_allowed_parallelism, 16);
     g_pool = new PartPool();
